@@ -6,6 +6,7 @@ from mir import op_place
 import c11
 
 META = {
+    "thorough_extra": ["client-only", "tls"],
     "level": "other",
     "explanation": "Decided on SocketAddrs::sort_preferred and its callers: (C16.1) permutation - the loop-free tail `match (prefer, v4, v6)` is enumerated exhaustively with a "
                    "variant-set abstract domain (3 x 2 x 2 abstract inputs): on every path a present v4 / v6 is the operand of exactly one push_front and an absent one of none, and "
